@@ -190,6 +190,11 @@ class Module:
         canonicalise_conditions(self.tree)
         desugar_map_filter(self.tree)
         desugar_fstrings(self.tree)
+        canonicalise_call_style(self.tree)
+        inline_adjacent_conditions(self.tree)
+        normalise_idioms(self.tree)
+        inline_expression_closures(self.tree)
+        inline_straightline_closures(self.tree)
         self.inlined = inline_expression_helpers(self.tree)
         self.propagated = propagate_simple_constants(self.tree)
         self.aliases_inlined = inline_pure_aliases(self.tree, unstable)
@@ -1018,6 +1023,530 @@ def canonicalise_private_names(tree, modname):
     return ren
 
 
+def normalise_idioms(tree):
+    """Equivalent spellings brought to the one the pinned tree uses:
+      * isinstance(x, A) or isinstance(x, B)            ->  isinstance(x, (A, B))
+      * [*xs]                                           ->  list(xs)
+      * len(x) > 0 / len(x) != 0 / len(x) >= 1 as a condition ->  x ;   len(x) == 0 / len(x) < 1  ->  not x
+      * while True: if <c>: break; <rest>               ->  while not <c>: <rest>      (no else clause)
+      * while/for ... else: without a break in the body ->  the loop followed by the else statements
+      * x.m(name=a, attrs=b) for a method m whose definitions in the module agree on the parameter order
+                                                        ->  x.m(a, b)   (keywords that continue the positional prefix)"""
+    # method signatures by name (all definitions in the module must agree)
+    sigs = {}
+    for c in ast.walk(tree):
+        if isinstance(c, ast.ClassDef):
+            for st in c.body:
+                if isinstance(st, ast.FunctionDef):
+                    decos = [ast.unparse(d) for d in st.decorator_list]
+                    if any(d in ('property',) or d.endswith('.setter') for d in decos):
+                        sigs[st.name] = None
+                        continue
+                    a = st.args
+                    ps = [x.arg for x in a.args]
+                    if 'staticmethod' not in decos:
+                        ps = ps[1:]
+                    sig = (tuple(ps), a.vararg is not None, a.kwarg.arg if a.kwarg else None)
+                    if st.name in sigs and sigs[st.name] != sig:
+                        sigs[st.name] = None
+                    else:
+                        sigs.setdefault(st.name, sig)
+
+    def cond(e):
+        """normalise e used as a condition"""
+        if isinstance(e, ast.Compare) and len(e.ops) == 1 and isinstance(e.left, ast.Call) and isinstance(e.left.func, ast.Name) \
+                and e.left.func.id == 'len' and len(e.left.args) == 1 and isinstance(e.comparators[0], ast.Constant) \
+                and isinstance(e.comparators[0].value, int):
+            k, op, x = e.comparators[0].value, type(e.ops[0]), e.left.args[0]
+            if (op in (ast.Gt, ast.NotEq) and k == 0) or (op is ast.GtE and k == 1):
+                return x
+            if (op is ast.Eq and k == 0) or (op is ast.Lt and k == 1):
+                return ast.copy_location(ast.UnaryOp(ast.Not(), x), e)
+        if isinstance(e, ast.UnaryOp) and isinstance(e.op, ast.Not):
+            e.operand = cond(e.operand)
+        elif isinstance(e, ast.BoolOp):
+            e.values = [cond(v) for v in e.values]
+        return e
+
+    def has_break(stmts):
+        for s_ in stmts:
+            for n in ast.walk(s_):
+                if isinstance(n, ast.Break):
+                    # a break of a nested loop does not count -- approximate: any nested loop makes us give up
+                    return True
+        return False
+
+    class N(ast.NodeTransformer):
+        def visit_Assert(self, n):
+            self.generic_visit(n)
+            n.test = cond(n.test)
+            return n
+
+        def visit_BoolOp(self, n):
+            self.generic_visit(n)
+            n.values = [cond(v) for v in n.values]
+            if isinstance(n.op, ast.Or):
+                # x == a or x == b   ->   x in (a, b)      (constants on the right, the same pure subject)
+                out = []
+                for v in n.values:
+                    if isinstance(v, ast.Compare) and len(v.ops) == 1 and isinstance(v.ops[0], ast.Eq) \
+                            and isinstance(v.comparators[0], ast.Constant) and _pure_expr(v.left):
+                        prev = out[-1] if out else None
+                        if isinstance(prev, ast.Compare) and len(prev.ops) == 1 and ast.dump(prev.left) == ast.dump(v.left):
+                            if isinstance(prev.ops[0], ast.Eq) and isinstance(prev.comparators[0], ast.Constant):
+                                out[-1] = ast.copy_location(ast.Compare(prev.left, [ast.In()], [ast.Tuple(
+                                    [prev.comparators[0], v.comparators[0]], ast.Load())]), prev)
+                                out[-1]._from_eq_chain = True
+                                continue
+                            if isinstance(prev.ops[0], ast.In) and isinstance(prev.comparators[0], ast.Tuple) \
+                                    and getattr(prev, '_from_eq_chain', False):
+                                prev.comparators[0].elts.append(v.comparators[0])
+                                continue
+                    out.append(v)
+                    if isinstance(out[-1], ast.Compare) and isinstance(out[-1].ops[0], ast.In):
+                        pass
+                for o in out:
+                    if isinstance(o, ast.Compare) and isinstance(o.ops[0], ast.In) and isinstance(o.comparators[0], ast.Tuple):
+                        o._from_eq_chain = True
+                if len(out) == 1:
+                    return out[0]
+                n.values = out
+            if isinstance(n.op, ast.Or):
+                out = []
+                for v in n.values:
+                    if out and isinstance(v, ast.Call) and isinstance(v.func, ast.Name) and v.func.id == 'isinstance' and len(v.args) == 2 \
+                            and isinstance(out[-1], ast.Call) and isinstance(out[-1].func, ast.Name) and out[-1].func.id == 'isinstance' \
+                            and len(out[-1].args) == 2 and ast.dump(out[-1].args[0]) == ast.dump(v.args[0]):
+                        prev = out[-1]
+                        a = list(prev.args[1].elts) if isinstance(prev.args[1], ast.Tuple) else [prev.args[1]]
+                        b = list(v.args[1].elts) if isinstance(v.args[1], ast.Tuple) else [v.args[1]]
+                        prev.args[1] = ast.Tuple(a + b, ast.Load())
+                    else:
+                        out.append(v)
+                if len(out) == 1:
+                    return out[0]
+                n.values = out
+            return n
+
+        def visit_Assign(self, n):
+            self.generic_visit(n)
+            # a, b = x, y   ->   a = x ; b = y     (no target occurs in a right-hand side: not a swap)
+            if len(n.targets) == 1 and isinstance(n.targets[0], ast.Tuple) and isinstance(n.value, ast.Tuple) \
+                    and len(n.targets[0].elts) == len(n.value.elts) and all(isinstance(t, ast.Name) for t in n.targets[0].elts):
+                tn = {t.id for t in n.targets[0].elts}
+                if not any(isinstance(x, ast.Name) and x.id in tn for v in n.value.elts for x in ast.walk(v)) \
+                        and not any(isinstance(v, ast.Starred) for v in n.value.elts):
+                    return [ast.copy_location(ast.Assign([t], v), n) for t, v in zip(n.targets[0].elts, n.value.elts)]
+            return n
+
+        def visit_List(self, n):
+            self.generic_visit(n)
+            if isinstance(n.ctx, ast.Load) and len(n.elts) == 1 and isinstance(n.elts[0], ast.Starred):
+                return ast.copy_location(ast.Call(ast.Name('list', ast.Load()), [n.elts[0].value], []), n)
+            return n
+
+        def visit_If(self, n):
+            self.generic_visit(n)
+            n.test = cond(n.test)
+            return n
+
+        def visit_IfExp(self, n):
+            self.generic_visit(n)
+            n.test = cond(n.test)
+            return n
+
+        def visit_While(self, n):
+            self.generic_visit(n)
+            n.test = cond(n.test)
+            if isinstance(n.test, ast.Constant) and n.test.value is True and not n.orelse and n.body:
+                # peel leading exit guards:  `if c: break`   and   `b = <expr>` + `if b: break` / `if not b: break`
+                conds, body = [], list(n.body)
+                while body:
+                    g = body[0]
+                    if isinstance(g, ast.If) and not g.orelse and len(g.body) == 1 and isinstance(g.body[0], ast.Break):
+                        c = g.test
+                        body = body[1:]
+                    elif len(body) >= 2 and isinstance(g, ast.Assign) and len(g.targets) == 1 and isinstance(g.targets[0], ast.Name) \
+                            and isinstance(body[1], ast.If) and not body[1].orelse and len(body[1].body) == 1 \
+                            and isinstance(body[1].body[0], ast.Break):
+                        nm = g.targets[0].id
+                        t = body[1].test
+                        uses = sum(1 for s_ in n.body for x in ast.walk(s_) if isinstance(x, ast.Name) and x.id == nm)
+                        if isinstance(t, ast.Name) and t.id == nm and uses == 2:
+                            c = g.value
+                        elif isinstance(t, ast.UnaryOp) and isinstance(t.op, ast.Not) and isinstance(t.operand, ast.Name) \
+                                and t.operand.id == nm and uses == 2:
+                            c = ast.copy_location(ast.UnaryOp(ast.Not(), g.value), g.value)
+                        else:
+                            break
+                        body = body[2:]
+                    else:
+                        break
+                    p = _negated(c)
+                    conds.append(p if p is not None else ast.copy_location(ast.UnaryOp(ast.Not(), c), c))
+                if conds and not any(isinstance(x, ast.Break) for s_ in body for x in ast.walk(s_) if False):
+                    n.test = conds[0] if len(conds) == 1 else ast.copy_location(ast.BoolOp(ast.And(), conds), n)
+                    n.body = body or [ast.copy_location(ast.Pass(), n)]
+            if n.orelse and not has_break(n.body):
+                tail, n.orelse = n.orelse, []
+                return [n] + tail
+            return n
+
+        def visit_For(self, n):
+            self.generic_visit(n)
+            if n.orelse and not has_break(n.body):
+                tail, n.orelse = n.orelse, []
+                return [n] + tail
+            return n
+
+        def visit_Call(self, n):
+            self.generic_visit(n)
+            if isinstance(n.func, ast.Attribute) and n.keywords and sigs.get(n.func.attr) \
+                    and not any(isinstance(a, ast.Starred) for a in n.args):
+                ps, has_var, kwname = sigs[n.func.attr]
+                if not has_var:
+                    kw = {k.arg: k for k in n.keywords if k.arg is not None}
+                    i = len(n.args)
+                    moved = []
+                    while i < len(ps) and ps[i] in kw:
+                        moved.append(kw.pop(ps[i]).value)
+                        i += 1
+                    if moved:
+                        n.args = list(n.args) + moved
+                        n.keywords = [k for k in n.keywords if k.arg is None or k.arg in kw]
+            return n
+    N().visit(tree)
+    ast.fix_missing_locations(tree)
+
+
+def _pure_expr(e):
+    """an expression without calls or other effects (reads of names, attributes, subscripts, arithmetic)"""
+    if isinstance(e, (ast.Name, ast.Constant)):
+        return True
+    if isinstance(e, ast.Attribute):
+        return _pure_expr(e.value)
+    if isinstance(e, ast.Subscript):
+        return _pure_expr(e.value) and _pure_expr(e.slice)
+    if isinstance(e, ast.BinOp):
+        return _pure_expr(e.left) and _pure_expr(e.right)
+    if isinstance(e, ast.UnaryOp):
+        return _pure_expr(e.operand)
+    if isinstance(e, ast.Compare):
+        return _pure_expr(e.left) and all(_pure_expr(c) for c in e.comparators)
+    if isinstance(e, ast.Tuple):
+        return all(_pure_expr(x) for x in e.elts)
+    if isinstance(e, ast.Slice):
+        return all(x is None or _pure_expr(x) for x in (e.lower, e.upper, e.step))
+    return False
+
+
+def _drop_unreferenced_closures(fn, names):
+    """remove the definitions (nested def / `name = lambda`) of closures that are no longer referenced"""
+    used = {n.id for n in ast.walk(fn) if isinstance(n, ast.Name) and isinstance(n.ctx, ast.Load)}
+    dead = {nm for nm in names if nm not in used}
+    if not dead:
+        return
+
+    def prune(stmts):
+        out = []
+        for st in stmts:
+            if isinstance(st, ast.FunctionDef) and st.name in dead:
+                continue
+            if isinstance(st, ast.Assign) and len(st.targets) == 1 and isinstance(st.targets[0], ast.Name) \
+                    and st.targets[0].id in dead and isinstance(st.value, ast.Lambda):
+                continue
+            for fld in ('body', 'orelse', 'finalbody'):
+                sub = getattr(st, fld, None)
+                if isinstance(sub, list) and sub and isinstance(sub[0], ast.stmt) and not isinstance(st, ast.FunctionDef):
+                    setattr(st, fld, prune(sub) or [ast.copy_location(ast.Pass(), st)])
+            out.append(st)
+        return out
+    fn.body = prune(fn.body) or [ast.copy_location(ast.Pass(), fn)]
+
+
+def inline_expression_closures(tree):
+    """A nested function whose body is one `return <expr>` (or a lambda bound to a local name), called with pure simple
+    arguments inside the function that defines it, is replaced by that expression at the call (a closure reads its
+    free variables when it is called, so the substitution is exact).  The definition stays."""
+    import copy
+    for fn in ast.walk(tree):
+        if not isinstance(fn, ast.FunctionDef):
+            continue
+        closures = {}
+        for st in ast.walk(fn):
+            if st is fn:
+                continue
+            if isinstance(st, ast.FunctionDef) and not st.decorator_list and not st.args.vararg and not st.args.kwarg \
+                    and not st.args.kwonlyargs and not st.args.defaults:
+                body = [b for b in st.body if not (isinstance(b, ast.Expr) and isinstance(b.value, ast.Constant))]
+                if len(body) == 1 and isinstance(body[0], ast.Return) and body[0].value is not None \
+                        and not any(isinstance(x, (ast.Yield, ast.YieldFrom, ast.Lambda)) for x in ast.walk(body[0].value)) \
+                        and not any(isinstance(x, ast.Name) and x.id == st.name for x in ast.walk(body[0].value)):
+                    closures[st.name] = ([a.arg for a in st.args.args], body[0].value)
+            elif isinstance(st, ast.Assign) and len(st.targets) == 1 and isinstance(st.targets[0], ast.Name) \
+                    and isinstance(st.value, ast.Lambda) and not st.value.args.vararg and not st.value.args.kwarg \
+                    and not st.value.args.defaults and not st.value.args.kwonlyargs:
+                if not any(isinstance(x, (ast.Lambda,)) for x in ast.walk(st.value.body)):
+                    closures[st.targets[0].id] = ([a.arg for a in st.value.args.args], st.value.body)
+        # names bound more than once are not closures we can trust
+        counts = {}
+        for n in ast.walk(fn):
+            if isinstance(n, ast.Name) and isinstance(n.ctx, ast.Store):
+                counts[n.id] = counts.get(n.id, 0) + 1
+            elif isinstance(n, ast.FunctionDef) and n is not fn:
+                counts[n.name] = counts.get(n.name, 0) + 1
+        closures = {k: v for k, v in closures.items() if counts.get(k, 0) == 1}
+        if not closures:
+            continue
+
+        class I(ast.NodeTransformer):
+            def visit_Call(self, n):
+                self.generic_visit(n)
+                if isinstance(n.func, ast.Name) and n.func.id in closures and not n.keywords \
+                        and not any(isinstance(a, ast.Starred) for a in n.args):
+                    params, body = closures[n.func.id]
+                    if len(params) != len(n.args):
+                        return n
+                    uses = {p_: sum(1 for x in ast.walk(body) if isinstance(x, ast.Name) and x.id == p_) for p_ in params}
+                    if not all(_pure_simple(a) or isinstance(a, ast.Constant) or (_pure_expr(a) and uses[p_] <= 1)
+                               for p_, a in zip(params, n.args)):
+                        return n
+                    env = dict(zip(params, n.args))
+
+                    class S(ast.NodeTransformer):
+                        def visit_Name(self, m):
+                            if isinstance(m.ctx, ast.Load) and m.id in env:
+                                return ast.copy_location(copy.deepcopy(env[m.id]), m)
+                            return m
+                    return ast.copy_location(S().visit(copy.deepcopy(body)), n)
+                return n
+
+            def visit_FunctionDef(self, n):
+                if n is fn:
+                    self.generic_visit(n)
+                    return n
+                if n.name in closures:
+                    return n        # the closure's own body is left as it is
+                self.generic_visit(n)
+                return n
+
+            def visit_Lambda(self, n):
+                return n
+        I().visit(fn)
+        _drop_unreferenced_closures(fn, set(closures))
+    ast.fix_missing_locations(tree)
+
+
+def inline_straightline_closures(tree):
+    """A nested function whose body is a straight line of simple statements ending in `return <expr>` is pasted in
+    front of each statement that calls it as `x = f(a)`, `yield f(a)`, `return f(a)` or `f(a)` (pure simple arguments),
+    with its parameters substituted, its locals renamed apart, and the call replaced by the returned expression."""
+    import copy
+    uid = [0]
+    for fn in ast.walk(tree):
+        if not isinstance(fn, ast.FunctionDef):
+            continue
+        closures = {}
+        for st in fn.body if True else []:
+            pass
+        for st in ast.walk(fn):
+            if isinstance(st, ast.FunctionDef) and st is not fn and not st.decorator_list and not st.args.vararg \
+                    and not st.args.kwarg and not st.args.kwonlyargs and not st.args.defaults:
+                body = [b for b in st.body if not (isinstance(b, ast.Expr) and isinstance(b.value, ast.Constant))]
+                if len(body) < 2 or not isinstance(body[-1], ast.Return) or body[-1].value is None:
+                    continue
+                if not all(isinstance(b, (ast.Assign, ast.AugAssign, ast.Expr)) for b in body[:-1]):
+                    continue
+                if any(isinstance(x, (ast.Yield, ast.YieldFrom, ast.Lambda, ast.FunctionDef, ast.Nonlocal, ast.Global, ast.Return))
+                       for b in body[:-1] for x in ast.walk(b)):
+                    continue
+                if any(isinstance(x, ast.Name) and x.id == st.name for b in body for x in ast.walk(b)):
+                    continue
+                closures[st.name] = (st, body)
+        counts = {}
+        for n in ast.walk(fn):
+            if isinstance(n, ast.Name) and isinstance(n.ctx, ast.Store):
+                counts[n.id] = counts.get(n.id, 0) + 1
+            elif isinstance(n, ast.FunctionDef) and n is not fn:
+                counts[n.name] = counts.get(n.name, 0) + 1
+        closures = {k: v for k, v in closures.items() if counts.get(k, 0) == 1}
+        if not closures:
+            continue
+
+        def site_call(stmt):
+            v = None
+            if isinstance(stmt, ast.Expr):
+                v = stmt.value.value if isinstance(stmt.value, ast.Yield) else stmt.value
+            elif isinstance(stmt, ast.Assign) and len(stmt.targets) == 1:
+                v = stmt.value
+            elif isinstance(stmt, ast.Return):
+                v = stmt.value
+            if isinstance(v, ast.Call) and isinstance(v.func, ast.Name) and v.func.id in closures and not v.keywords \
+                    and not any(isinstance(a, ast.Starred) for a in v.args):
+                st, body = closures[v.func.id]
+                if len(st.args.args) == len(v.args) and all(_pure_simple(a) or isinstance(a, ast.Constant) for a in v.args):
+                    return v
+            return None
+
+        def expand(stmts, inside_closure=False):
+            out = []
+            for stmt in stmts:
+                if isinstance(stmt, ast.FunctionDef) and stmt.name in closures:
+                    out.append(stmt)
+                    continue
+                for fld in ('body', 'orelse', 'finalbody'):
+                    sub = getattr(stmt, fld, None)
+                    if isinstance(sub, list) and sub and isinstance(sub[0], ast.stmt):
+                        setattr(stmt, fld, expand(sub))
+                for h in getattr(stmt, 'handlers', []) or []:
+                    h.body = expand(h.body)
+                call = site_call(stmt)
+                if call is None:
+                    out.append(stmt)
+                    continue
+                st, body = closures[call.func.id]
+                uid[0] += 1
+                params = [a.arg for a in st.args.args]
+                env = dict(zip(params, call.args))
+                loc = {n.id for b in body for n in ast.walk(b) if isinstance(n, ast.Name) and isinstance(n.ctx, ast.Store)} - set(params)
+                ren = {l: '_%s_%d_%s' % (st.name, uid[0], l) for l in loc}
+
+                class S(ast.NodeTransformer):
+                    def visit_Name(self, m):
+                        if m.id in ren:
+                            m.id = ren[m.id]
+                            return m
+                        if isinstance(m.ctx, ast.Load) and m.id in env:
+                            return ast.copy_location(copy.deepcopy(env[m.id]), m)
+                        return m
+                if any(isinstance(n, ast.Name) and isinstance(n.ctx, ast.Store) and n.id in params for b in body for n in ast.walk(b)):
+                    out.append(stmt)
+                    continue
+                new = [S().visit(copy.deepcopy(b)) for b in body]
+                for b in new[:-1]:
+                    ast.copy_location(b, stmt)
+                    out.append(b)
+                ret_expr = new[-1].value
+                # put the returned expression where the call stood
+                if isinstance(stmt, ast.Expr) and isinstance(stmt.value, ast.Yield):
+                    stmt.value.value = ret_expr
+                elif isinstance(stmt, ast.Expr):
+                    stmt.value = ret_expr
+                else:
+                    stmt.value = ret_expr
+                out.append(stmt)
+            return out
+        fn.body = expand(fn.body)
+        _drop_unreferenced_closures(fn, set(closures))
+    ast.fix_missing_locations(tree)
+
+
+def inline_adjacent_conditions(tree):
+    """`b = <expr>` immediately followed by an `if` / `while` / `assert` / `return` whose condition mentions b, with b
+    used nowhere else in the function, is the condition written in place."""
+    import copy
+    for fn in ast.walk(tree):
+        if not isinstance(fn, ast.FunctionDef):
+            continue
+        uses = {}
+        for n in ast.walk(fn):
+            if isinstance(n, ast.Name):
+                uses[n.id] = uses.get(n.id, 0) + 1
+
+        def fix(stmts):
+            i = 0
+            while i < len(stmts):
+                st = stmts[i]
+                for fld in ('body', 'orelse', 'finalbody'):
+                    sub = getattr(st, fld, None)
+                    if isinstance(sub, list) and sub and isinstance(sub[0], ast.stmt):
+                        fix(sub)
+                for h in getattr(st, 'handlers', []) or []:
+                    fix(h.body)
+                if i + 1 < len(stmts) and isinstance(st, ast.Assign) and len(st.targets) == 1 and isinstance(st.targets[0], ast.Name) \
+                        and uses.get(st.targets[0].id, 0) == 2 and not isinstance(st.value, (ast.Lambda, ast.Yield, ast.YieldFrom)):
+                    nm = st.targets[0].id
+                    nxt = stmts[i + 1]
+                    holder = None
+                    if isinstance(nxt, (ast.If, ast.While, ast.Assert)):
+                        holder = 'test'
+                    elif isinstance(nxt, ast.Return) and nxt.value is not None:
+                        holder = 'value'
+                    if holder is not None:
+                        e = getattr(nxt, holder)
+                        hits = [x for x in ast.walk(e) if isinstance(x, ast.Name) and x.id == nm and isinstance(x.ctx, ast.Load)]
+                        # the name must be the first thing evaluated in the condition (nothing before it can run or raise)
+                        first = e
+                        while isinstance(first, (ast.BoolOp, ast.UnaryOp)):
+                            first = first.values[0] if isinstance(first, ast.BoolOp) else first.operand
+                        if len(hits) == 1 and first is hits[0] and not isinstance(nxt, ast.While):
+                            class S(ast.NodeTransformer):
+                                def visit_Name(self, m):
+                                    if m is hits[0]:
+                                        return ast.copy_location(copy.deepcopy(st.value), m)
+                                    return m
+                            setattr(nxt, holder, S().visit(e))
+                            del stmts[i]
+                            continue
+                i += 1
+        fix(fn.body)
+    ast.fix_missing_locations(tree)
+
+
+def canonicalise_call_style(tree):
+    """Whether an argument is passed by position or by keyword does not matter; the package passes required
+    parameters by position and optional ones (those with a default) by keyword.  Calls of module-level functions of
+    the same module are brought into that form: positionally passed optional parameters become keywords, required
+    parameters passed by keyword become positional (when every earlier one is present).  Calls with * / ** are left
+    alone."""
+    funcs = {st.name: st for st in tree.body if isinstance(st, ast.FunctionDef)}
+    shadowed = set()
+    for st in tree.body:
+        if isinstance(st, ast.Assign):
+            for t in st.targets:
+                if isinstance(t, ast.Name):
+                    shadowed.add(t.id)
+
+    class C(ast.NodeTransformer):
+        def visit_Call(self, n):
+            self.generic_visit(n)
+            fname = None
+            if isinstance(n.func, ast.Name):
+                fname = n.func.id
+            elif isinstance(n.func, ast.Call) and isinstance(n.func.func, ast.Name) and n.func.func.id in funcs \
+                    and len(n.func.args) == 1 and isinstance(n.func.args[0], ast.Name) and not n.func.keywords:
+                # factory(f)(...): a wrapper made by a module-level factory takes f's arguments
+                fname = n.func.args[0].id
+            if not (fname in funcs and fname not in shadowed):
+                return n
+            f = funcs[fname]
+            a = f.args
+            if a.vararg or a.kwarg or a.posonlyargs or a.kwonlyargs or f.decorator_list:
+                return n
+            if any(isinstance(x, ast.Starred) for x in n.args) or any(k.arg is None for k in n.keywords):
+                return n
+            params = [x.arg for x in a.args]
+            nreq = len(params) - len(a.defaults)
+            if len(n.args) > len(params) or any(k.arg not in params for k in n.keywords):
+                return n
+            given = dict(zip(params, n.args))
+            for k in n.keywords:
+                if k.arg in given:
+                    return n
+                given[k.arg] = k.value
+            pos, i = [], 0
+            while i < nreq and params[i] in given:
+                pos.append(given[params[i]])
+                i += 1
+            if any(p_ in given for p_ in params[i:nreq]):
+                return n        # a required parameter after a missing one: leave the (erroneous) call alone
+            kws = [ast.keyword(p_, given[p_]) for p_ in params[nreq:] if p_ in given]
+            n.args, n.keywords = pos, kws
+            return n
+    C().visit(tree)
+    ast.fix_missing_locations(tree)
+
+
 def desugar_fstrings(tree):
     """f'..{a}..{b!r}..' is read as '..%s..%r..' % (a, b) -- the formatting style of the pinned tree (only plain
     `{expr}`, `!s` and `!r` fields; a field with a format spec keeps the f-string); str.format with positional `{}`
@@ -1082,7 +1611,11 @@ def strip_annotations(tree):
 
 
 # module-level names with a literal initialiser that the rules refer to by name (they stay names)
-PINNED_CONSTANT_NAMES = {'MODE_MATH', 'MODE_NON_MATH', 'MODE_SPECIAL', '__version__'}
+PINNED_CONSTANT_NAMES = {'MODE_MATH', 'MODE_NON_MATH', 'MODE_SPECIAL', '__version__',
+                         # today's module-level collections (rules fold them by name)
+                         'others', 'CATEGORY_CODES', '__all__', 'arg_type', 'MATH_SIMPLE_ENVS', 'MATH_TOKEN_TO_ENV',
+                         'ARG_BEGIN_TO_ENV', 'SIGNATURES', 'SKIP_ENV_NAMES', 'MATH_ENV_NAMES', 'SPECIAL_COMMANDS',
+                         'BRACKETS_DELIMITERS', 'SIZE_PREFIX', 'PUNCTUATION_COMMANDS', 'tokenizers', 'CC', 'TC'}
 
 
 def propagate_simple_constants(tree, extra=None):
@@ -1109,6 +1642,17 @@ def propagate_simple_constants(tree, extra=None):
                 nm = st.targets[0].id
                 if nm not in PINNED_CONSTANT_NAMES and not nm.startswith('__') and stores.get(nm, 0) == 1:
                     consts[nm] = st.value
+            # a new tuple / frozenset of names (classes, category or token codes) used for membership / isinstance tests
+            elif isinstance(st, ast.Assign) and len(st.targets) == 1 and isinstance(st.targets[0], ast.Name):
+                nm, v = st.targets[0].id, st.value
+                if isinstance(v, ast.Call) and isinstance(v.func, ast.Name) and v.func.id in ('frozenset', 'tuple') and len(v.args) == 1 \
+                        and isinstance(v.args[0], (ast.Tuple, ast.List, ast.Set)):
+                    v = ast.copy_location(ast.Tuple(list(v.args[0].elts), ast.Load()), v)
+                if isinstance(v, ast.Tuple) and v.elts and nm not in PINNED_CONSTANT_NAMES and not nm.startswith('__') \
+                        and stores.get(nm, 0) == 1 and all(
+                            isinstance(e, ast.Name) or (isinstance(e, ast.Attribute) and isinstance(e.value, ast.Name))
+                            for e in v.elts):
+                    consts[nm] = v
     else:
         consts = {k: v for k, v in consts.items() if stores.get(k, 0) == 0}
     if not consts:
@@ -1456,6 +2000,11 @@ def resolve_locals(fnode, expr, depth=0):
     for n in ast.walk(fnode):
         if isinstance(n, ast.Assign) and len(n.targets) == 1 and isinstance(n.targets[0], ast.Name):
             assigns.setdefault(n.targets[0].id, []).append(n.value)
+        elif isinstance(n, ast.Assign) and len(n.targets) == 1 and isinstance(n.targets[0], ast.Tuple) \
+                and isinstance(n.value, ast.Tuple) and len(n.value.elts) == len(n.targets[0].elts):
+            for t_, v_ in zip(n.targets[0].elts, n.value.elts):
+                if isinstance(t_, ast.Name):
+                    assigns.setdefault(t_.id, []).append(v_)
         elif isinstance(n, ast.AugAssign) and isinstance(n.target, ast.Name):
             assigns.setdefault(n.target.id, []).append(None)
         elif isinstance(n, (ast.For, ast.comprehension)):
@@ -1620,3 +2169,40 @@ def with_self_aliases_resolved(fnode):
         for ch in ast.iter_child_nodes(parent):
             ch._parent = parent
     return new
+
+
+def bound_call_args(repo, module, call):
+    """parameter name -> argument expression for a call whose callee can be resolved: a module-level function or class
+    (constructor parameters, through the MRO) by name, or a method whose definitions across the package agree on their
+    parameter list.  None when the callee or the binding cannot be determined (star arguments, unknown names)."""
+    if any(isinstance(a, ast.Starred) for a in call.args) or any(k.arg is None for k in call.keywords):
+        return None
+    params = None
+    f = call.func
+    if isinstance(f, ast.Name):
+        r = repo.resolve(module, f.id)
+        if r and r[0] == 'func':
+            params = [a.arg for a in r[1].node.args.args]
+        elif r and r[0] == 'class':
+            c = r[1]
+            for k in (c.mro or [c]):
+                if hasattr(k, 'methods') and ('__init__' in k.methods or '__new__' in k.methods):
+                    fd = (k.methods.get('__init__') or k.methods.get('__new__'))[-1]
+                    params = [a.arg for a in fd.node.args.args][1:]
+                    break
+    elif isinstance(f, ast.Attribute):
+        sigs = set()
+        for c in repo.all_classes():
+            for fd in c.methods.get(f.attr, []):
+                ps = [a.arg for a in fd.node.args.args]
+                sigs.add(tuple(ps[1:] if 'staticmethod' not in fd.decorators else ps))
+        if len(sigs) == 1:
+            params = list(sigs.pop())
+    if params is None or len(call.args) > len(params):
+        return None
+    out = dict(zip(params, call.args))
+    for k in call.keywords:
+        if k.arg in out:
+            return None
+        out[k.arg] = k.value
+    return out
